@@ -1,1 +1,154 @@
-(* Proofs/AggDefs.v -- lemmas; see DESIGN.md section 7 *)
+(* Proofs/AggDefs.v -- C03: the entry of a function/macro definition mirrors the definition
+   command, and shows **kwargs iff its doccomment contains the trigger or its own body calls
+   cmake_parse_arguments outside nested definitions (nested view of Spec/AggSpec.v). *)
+From Coq Require Import String List NArith Bool Arith Lia.
+From CMinx Require Import Base.Str Model.Lexer Model.Parser Model.Writer Model.DocTypes
+     Model.Aggregator Spec.EntrySpec Spec.AggSpec Proofs.AggInv.
+Import ListNotations.
+
+(* ---- spec ---- *)
+
+(* entry j is this function/macro entry *)
+Definition fn_at (st : agg) (j : nat) (m : bool) (n d : str) (p : list str) (k : bool) : Prop :=
+  nth_error (documented st) j = Some (EFunction m n d p k).
+
+(* the innermost open definition is entry j *)
+Definition frame_is (j : nat) (ds : list (option nat)) : bool :=
+  match ds with Some i :: _ => Nat.eqb i j | _ => false end.
+
+(* no open definition is entry j *)
+Definition frames_avoid (j : nat) (ds : list (option nat)) : bool :=
+  forallb (fun fr => match fr with Some i => negb (Nat.eqb i j) | None => true end) ds.
+
+(* every open definition refers to an entry below n *)
+Definition frames_below (n : nat) (ds : list (option nat)) : bool :=
+  forallb (fun fr => match fr with Some i => Nat.ltb i n | None => true end) ds.
+
+(* the cleaned doccomment of a command, empty without one *)
+Definition doc_of (doc : option str) : str :=
+  match doc with Some t => clean_doc_text t | None => [] end.
+
+(* the header of a definition gets an entry: it is documented, or it is not the claimed
+   implementation of a member/test declaration and its include_undocumented flag is on *)
+Definition header_creates (fl : flags) (st : agg) (doc : option str) (hdr : cmd) : bool :=
+  match doc with
+  | Some _ => true
+  | None => negb (aw_pending (awaiting st))
+            && (if kind_is hdr (s"macro") then inc_macro fl else inc_function fl)
+  end.
+
+Definition elem_is_cpa (e : element) : bool :=
+  match e with
+  | EDocCmd _ c | ECmd c => is_cpa_cmd c
+  | EDangling _ => false
+  end.
+
+Definition elem_kind (e : element) : ckind :=
+  match e with
+  | EDocCmd _ c | ECmd c => classify (cmd_kind c)
+  | EDangling _ => CkOther
+  end.
+
+(* ---- the nested view: unfolding equations and induction ---------------------------- *)
+
+Lemma flatten_def : forall doc hdr body endc,
+  flatten (NDef doc hdr body endc) = elem_of doc hdr :: flatten_all body ++ [ECmd endc].
+Proof. reflexivity. Qed.
+
+Lemma flatten_class : forall doc hdr body endc,
+  flatten (NClass doc hdr body endc) = elem_of doc hdr :: flatten_all body ++ [ECmd endc].
+Proof. reflexivity. Qed.
+
+Lemma wf_node_def : forall doc hdr body endc,
+  wf_node (NDef doc hdr body endc) = is_def_cmd hdr && is_end_def_cmd endc && wf_nodes body.
+Proof. reflexivity. Qed.
+
+Lemma wf_node_class : forall doc hdr body endc,
+  wf_node (NClass doc hdr body endc) = is_class_cmd hdr && is_end_class_cmd endc && wf_nodes body.
+Proof. reflexivity. Qed.
+
+Lemma has_cpa0_class : forall doc hdr body endc,
+  has_cpa0 (NClass doc hdr body endc) = existsb has_cpa0 body.
+Proof. reflexivity. Qed.
+
+Section node_ind2.
+  Variable P : node -> Prop.
+  Variable Q : list node -> Prop.
+  Hypothesis HCmd : forall doc c, P (NCmd doc c).
+  Hypothesis HDangling : forall d, P (NDangling d).
+  Hypothesis HDef : forall doc hdr body endc, Q body -> P (NDef doc hdr body endc).
+  Hypothesis HClass : forall doc hdr body endc, Q body -> P (NClass doc hdr body endc).
+  Hypothesis HNil : Q [].
+  Hypothesis HCons : forall x r, P x -> Q r -> Q (x :: r).
+
+  Fixpoint node_ind2 (n : node) : P n :=
+    match n with
+    | NCmd doc c => HCmd doc c
+    | NDangling d => HDangling d
+    | NDef doc hdr body endc =>
+        HDef doc hdr body endc
+             ((fix go (l : list node) : Q l :=
+                 match l with [] => HNil | x :: r => HCons x r (node_ind2 x) (go r) end) body)
+    | NClass doc hdr body endc =>
+        HClass doc hdr body endc
+               ((fix go (l : list node) : Q l :=
+                   match l with [] => HNil | x :: r => HCons x r (node_ind2 x) (go r) end) body)
+    end.
+
+  Lemma nodes_ind2 : forall l, Q l.
+  Proof. intro l. induction l as [|x r IH]; [exact HNil|apply HCons; [apply node_ind2|exact IH]]. Qed.
+End node_ind2.
+
+(* ---- kinds of the block commands ---------------------------------------------------- *)
+
+Lemma is_def_cmd_classify : forall c,
+  is_def_cmd c = match classify (cmd_kind c) with CkDef _ => true | _ => false end.
+Proof.
+  intro c. unfold is_def_cmd, kind_is. generalize (cmd_kind c) as k. intro k.
+  kind_cases k Hk; try (subst k; reflexivity).
+  - destruct Hk as [Hk|Hk]; subst k; reflexivity.
+  - destruct Hk as (H1&H2&_). rewrite H1, H2. reflexivity.
+Qed.
+
+Lemma is_end_def_cmd_classify : forall c,
+  is_end_def_cmd c = match classify (cmd_kind c) with CkEndDef => true | _ => false end.
+Proof.
+  intro c. unfold is_end_def_cmd, kind_is. generalize (cmd_kind c) as k. intro k.
+  kind_cases k Hk; try (subst k; reflexivity).
+  - destruct Hk as [Hk|Hk]; subst k; reflexivity.
+  - destruct Hk as (_&_&H3&H4&_). rewrite H3, H4. reflexivity.
+Qed.
+
+Lemma is_class_cmd_classify : forall c,
+  is_class_cmd c = match classify (cmd_kind c) with CkClass => true | _ => false end.
+Proof.
+  intro c. unfold is_class_cmd, kind_is. generalize (cmd_kind c) as k. intro k.
+  kind_cases k Hk; try (subst k; reflexivity).
+  - destruct Hk as [Hk|Hk]; subst k; reflexivity.
+  - destruct Hk as (_&_&_&_&H5&_). rewrite H5. reflexivity.
+Qed.
+
+Lemma is_end_class_cmd_classify : forall c,
+  is_end_class_cmd c = match classify (cmd_kind c) with CkEndClass => true | _ => false end.
+Proof.
+  intro c. unfold is_end_class_cmd, kind_is. generalize (cmd_kind c) as k. intro k.
+  kind_cases k Hk; try (subst k; reflexivity).
+  - destruct Hk as [Hk|Hk]; subst k; reflexivity.
+  - destruct Hk as (_&_&_&_&_&H6&_). rewrite H6. reflexivity.
+Qed.
+
+Lemma is_cpa_cmd_classify : forall c,
+  is_cpa_cmd c = match classify (cmd_kind c) with CkCpa => true | _ => false end.
+Proof.
+  intro c. unfold is_cpa_cmd, kind_is. generalize (cmd_kind c) as k. intro k.
+  kind_cases k Hk; try (subst k; reflexivity).
+  - destruct Hk as [Hk|Hk]; subst k; reflexivity.
+  - destruct Hk as (_&_&_&_&_&_&H7&_). rewrite H7. reflexivity.
+Qed.
+
+Lemma kind_is_macro_classify : forall c m,
+  classify (cmd_kind c) = CkDef m -> kind_is c (s"macro") = m.
+Proof.
+  intros c m. unfold kind_is. generalize (cmd_kind c) as k. intros k H.
+  pose proof (classify_spec k) as Hk. rewrite H in Hk. destruct m; subst k; reflexivity.
+Qed.
